@@ -21,6 +21,7 @@ import CtyModel.Lemmas.UnifyProps
 import CtyModel.Lemmas.UnifyNoPanic
 import CtyModel.Lemmas.UnifyTopo
 import CtyModel.Lemmas.UnifyUnsafe
+import CtyModel.Lemmas.UnifyFlat
 namespace CtyModel
 namespace C09
 open Convert Ty Unify
@@ -549,6 +550,30 @@ theorem unsafe_of_safe_partial (E : Env) (fuel : Nat) (types : List Ty) (t : Ty)
     intro e; subst e; simp [generalKinds] at hk
   simp only [unify, unifyUnsafe, unifyF, unifyStep_generalKinds _ _ _ _ hk] at h ⊢
   exact general_unsafe_of_safe E types hne ht h
+
+/-- Closed form, any depth, for the types built from primitives, capsule types, lists,
+sets and maps (`flat`: no tuple, no object, no placeholder): wherever the type result of
+safe unification (ConvertUnify's `unifyTyF`, the `unify` the conversions themselves
+consult) is a type, so is that of unsafe unification — for every fuel, hence for
+`unifyTy`.  By induction on the nesting, together with `unify_result_reachable_flat`. -/
+theorem unsafe_of_safe_flat (fuel : Nat) (ts : List Ty) (t : Ty) (hf : ∀ x ∈ ts, flat x = true)
+    (h : unifyTyF fuel false ts = some t) : ∃ t', unifyTyF fuel true ts = some t' :=
+  (flat_main fuel).2 ts t hf h
+
+theorem unsafe_of_safe_flat_std (ts : List Ty) (t : Ty) (hf : ∀ x ∈ ts, flat x = true)
+    (h : unifyTy false ts = some t) : ∃ t', unifyTy true ts = some t' :=
+  (flat_main (fuelFor ts)).2 ts t hf h
+
+/-- the invariant behind it (the clause "a type every input really converts to", at the
+level of types): the unified type of flat types is flat, and every input `Equals` it or
+has a conversion to it in the mode of the unification, whatever the environment -/
+theorem unify_result_reachable_flat (fuel : Nat) (uns : Bool) (ts : List Ty) (t : Ty)
+    (hf : ∀ x ∈ ts, flat x = true) (h : unifyTyF fuel uns ts = some t) :
+    flat t = true ∧ ∀ x ∈ ts, x.equals t = true ∨ ∀ E : Env, (gck E x t uns).isSome = true :=
+  (flat_main fuel).1 uns ts t hf h
+
+example : flat (.map (.list (.set .string))) = true := by decide
+example : unifyTyF 6 false [.list (.set .bool), .list (.list .string)] = some (.list (.list .string)) := rfl
 
 /-- the witness (C08's `safe_sub_unsafe_counterexample`, now on the full model):
 `Unify([map(tuple(string)), object{a: bool, m: dynamic, zz: string}])` is `map(dynamic)`,
